@@ -26,7 +26,8 @@ theorem ldw2_canon_not_seq (t : Ty) (v : PyVal)
   · obtain ⟨x, rfl, _⟩ := hcanon; rfl
 
 /-- the codec encodes a one-element array of an elementary type like the element -/
-theorem ldw2_encode_arr_one (t : Ty) (v : PyVal) (bytes : Bytes) (hb : t.isBits = none) (henc : encode t v = .ok bytes) :
+theorem ldw2_encode_arr_one (t : Ty) (v : PyVal) (bytes : Bytes) (hb : t.isBits = none)
+    (henc : encode t (argOf t v) = .ok bytes) :
     encode (.arr (.fixed 1) t) (.list [v]) = .ok bytes := by
   have hl : (PyVal.list [v]).len? = some 1 := rfl
   have hs : (PyVal.list [v]).seq? = some [v] := rfl
@@ -43,7 +44,7 @@ theorem ldw2_encodeValue_elem (p : Parsed) (info : TagInfo) (dim : Nat) (t : Ty)
     (hcanon : Canon t p.value) (henc : encode t p.value = .ok bytes) : encodeValue p info = (p, some bytes) := by
   have hdw : (info.core.dataTypeName == nm "DWORD") = false := by simpa using hnd
   have hns := ldw2_canon_not_seq t p.value hshape hcanon
-  have h1 := ldw2_encode_arr_one t p.value bytes hb henc
+  have h1 := ldw2_encode_arr_one t p.value bytes hb (by rw [RT.argOf_of_canon t _ hcanon]; exact henc)
   unfold encodeValue
   split
   · rename_i b hv
@@ -154,13 +155,14 @@ theorem ldw2_write_array (cfg : Cfg) (w : Cli.World Ext) (sess : Nat) (cidb : By
 
 /-- the codec encodes an `n`-element array of an elementary type element by element -/
 theorem ldw2_encode_arr_list (t : Ty) (vs : List PyVal) (n : Nat) (bytes : Bytes) (hb : t.isBits = none) (hvs : vs.length = n)
-    (henc : encode (.arr (.fixed n) t) (.list vs) = .ok bytes) : encodeList (encode t) vs = .ok bytes := by
+    (henc : encode (.arr (.fixed n) t) (.list vs) = .ok bytes) :
+    encodeList (fun x => encode t (argOf t x)) vs = .ok bytes := by
   have hl : (PyVal.list vs).len? = some n := by rw [← hvs]; rfl
   have hs : (PyVal.list vs).seq? = some vs := rfl
   have htk : vs.take n = vs := by rw [← hvs]; exact List.take_length
   unfold encode at henc
   simp only [hl, hs, hb, Nat.lt_irrefl, decide_false, Bool.false_eq_true, if_false, htk] at henc
-  cases h : encodeList (encode t) vs with
+  cases h : encodeList (fun x => encode t (argOf t x)) vs with
   | ok bs => rw [h] at henc; simp only at henc; rw [← henc]
   | error e => rw [h] at henc; simp only at henc; cases henc
 
